@@ -34,6 +34,15 @@ def extra(rng, tier):
                 c = cfg(); c["has_upload"] = True
                 cases.append((c, [("read", [data])] + finish(c)))
                 cases.append((c, sg.group_reads(rng, sg.random_chunks(rng, data)) + finish(c)))
+                # the limit is in BYTES: the same lengths reached with 2- and 3-byte characters (fewer characters than bytes)
+                for ch in ("\u00e9".encode("utf-8"), "\u4e16".encode("utf-8")):
+                    tail = b";size=0" if scheme.startswith(b"titan") else b""
+                    room = total - 2 - len(scheme) - len(tail)
+                    if room < 0: continue
+                    body2 = scheme + ch * (room // len(ch)) + b"a" * (room % len(ch)) + tail
+                    data2 = body2 + (b"\r\n" if with_crlf else b"")
+                    c2 = cfg(); c2["has_upload"] = True
+                    cases.append((c2, [("read", [data2])] + finish(c2)))
     return cases
 
 def run(tier, seed):
